@@ -129,7 +129,9 @@ class WriteBack(WritePolicy):
 
         self._flush_interval = flush_interval
         self._max_dirty = max_dirty
-        self._dirty_keys: set[str] = set()
+        # Insertion-ordered (a dict used as an ordered set) so that
+        # get_keys_to_flush() does not depend on the interpreter's hash seed.
+        self._dirty_keys: dict[str, None] = {}
         self._last_flush_time: float = 0.0
 
     @property
@@ -153,7 +155,7 @@ class WriteBack(WritePolicy):
 
     def on_write(self, key: str, value: Any) -> None:
         """Track dirty key."""
-        self._dirty_keys.add(key)
+        self._dirty_keys[key] = None
 
     def should_flush(self) -> bool:
         """Check if flush is needed based on dirty count."""
@@ -166,7 +168,7 @@ class WriteBack(WritePolicy):
     def on_flush(self, keys: list[str]) -> None:
         """Remove flushed keys from dirty set."""
         for key in keys:
-            self._dirty_keys.discard(key)
+            self._dirty_keys.pop(key, None)
 
 
 class WriteAround(WritePolicy):
